@@ -35,6 +35,8 @@ var (
 	on       atomic.Bool
 	sealerID atomic.Int64 // goroutine-agnostic: the sealer announces itself through a flag
 	gateR    atomic.Bool
+	gateIdle atomic.Bool // park the next sealer at pf.idle (fraction read-only, writers idle, nothing written yet)
+	gateA    atomic.Bool // park the next appender between choosing its writer and appending to it (fm.append)
 	evals    int
 	problems []map[string]any
 )
@@ -51,6 +53,10 @@ func hook(point string, obj any, a, b int64) {
 		actor = "sealer"
 	} else if point == "ar.tok" && gateR.Load() {
 		actor = "slow"
+	} else if point == "fm.append" && gateA.CompareAndSwap(true, false) {
+		actor = "appender"
+	} else if point == "pf.idle" && gateIdle.CompareAndSwap(true, false) {
+		actor = "sealer"
 	}
 	if actor == "" {
 		return
@@ -326,6 +332,71 @@ func slow(skip bool) {
 	probe(e, acked, fmt.Sprintf("skip=%v after the hand-over", skip))
 }
 
+// overtaken: FracAppend.tla. An appender has chosen its writer (fm.Writer()) when a maintenance pass rotates the
+// fraction away and the seal makes it read-only (or even publishes the sealed copy). The appender's attempt on the
+// stale writer fails and the loop must go round and pick the writer AGAIN: the bulk returns, its documents are
+// visible (EveryBulkReturns). Forced through the hook fm.append.
+func overtaken(skip bool, full bool) {
+	where := fmt.Sprintf("skip=%v appender overtaken by rotate+seal (seal finished: %v)", skip, full)
+	e, err := env.New(env.Opts{SkipFsync: true, SkipSortDocs: skip, FracSize: 1})
+	if err != nil {
+		report(where, "infra: "+err.Error())
+		return
+	}
+	defer e.Close()
+	var acked []env.Doc
+	for i := 1; i <= 4; i++ {
+		acked = append(acked, doc(i))
+	}
+	if err := e.Bulk(acked); err != nil {
+		report(where, "infra: bulk: "+err.Error())
+		return
+	}
+	e.WaitIdle()
+	on.Store(true)
+	defer on.Store(false)
+	gateA.Store(true)
+	late := []env.Doc{doc(50), doc(51)}
+	bulkDone := make(chan error, 1)
+	go func() { bulkDone <- e.Bulk(late) }()
+	if p, ok := waitFor("appender", 60*time.Second); !ok || p != "fm.append" {
+		report(where, "infra: the appender did not park between choosing its writer and appending")
+		return
+	}
+	// the fraction the appender holds is rotated away and sealed (FracSize 1: the pass rotates)
+	if full {
+		e.FM().VerifMaintenance() // rotate + the whole seal + release
+	} else {
+		var sw, dw sync.WaitGroup
+		gateIdle.Store(true) // park the sealer right after it made the fraction read-only and idle
+		e.FM().VerifMaintenancePass(&sw, &dw)
+		if p, ok := waitFor("sealer", 60*time.Second); !ok {
+			report(where, "infra: the sealer did not reach pf.idle ("+p+")")
+			gateIdle.Store(false)
+			resume("appender")
+			return
+		}
+		defer func() { resume("sealer"); sw.Wait(); dw.Wait() }()
+	}
+	resume("appender")
+	select {
+	case err := <-bulkDone:
+		if err != nil {
+			report(where, "the overtaken bulk failed: "+err.Error())
+			return
+		}
+	case <-time.After(30 * time.Second):
+		report(where, "the bulk of an appender that was overtaken by a rotation never returned (it keeps retrying on the fraction that was rotated away)")
+		os.Stdout.Sync()
+		return
+	}
+	if !full {
+		resume("sealer")
+	}
+	e.WaitIdle()
+	probe(e, append(acked, late...), where)
+}
+
 func main() {
 	rounds := flag.Int("rounds", 3, "")
 	flag.Int("workers", 1, "")
@@ -341,6 +412,9 @@ func main() {
 		gates += gated(skip, *rounds, false)
 		gates += gated(skip, *rounds, true)
 		slow(skip)
+		overtaken(skip, false)
+		overtaken(skip, true)
+		gates += 2
 	}
 	for _, p := range problems {
 		if w, _ := p["what"].(string); strings.HasPrefix(w, "infra: ") {
